@@ -181,6 +181,16 @@ def run(ctx):
         tag = B.peel(r.a[1][1]) if r.op == "call" else None
         ok = ok and tag is not None and tag.op == "assoc" and tag.a[0] == "BlsElGamal::ENC_DST"
         ctx.ob("E5.generator", mg.key, ok, "H = PublicKeyHasher::hash_to_point(to_bytes(G), ENC_DST): %s" % show(r, 4), where=where(mg))
+    # "the fixed message generator": the label it is hashed under is the pinned one, per implementation
+    from .common import spec as _spec, collect_constants as _cc
+
+    _pinned = _spec("pinned.json")
+    _consts = _cc(P)
+    for key, wantv in _pinned["own_tags"].items():
+        impl, item = key.split("/")
+        tr, name = item.split("::")
+        got = [c for c in _consts if c["impl"] == impl and c["trait"] == tr and c["name"] == name]
+        ctx.ob("E1.enc_dst", key, bool(got) and got[0]["str"] == wantv, "`%s` = %r (pinned %r)" % (key, got[0]["str"] if got else None, wantv))
     # threshold decryption: the decryption key is recombined from the share *set* (any order, every share forwarded)
     fk = "ElGamalDecryptionKey<C>::from_shares"
     f = ctx.need_fn("E6.combine", fk)
